@@ -68,7 +68,10 @@ def reference(cls, user, builtin):
 
 
 UNIVERSE = ["StructureType", "UnionType", "CompositeType", "SerializableType", "Any", "DelimitedType", "ServiceType",
-            "PrimitiveType", "IntegerType", "ArrayType", "Attribute", "Field"]
+            "PrimitiveType", "IntegerType", "ArrayType", "Attribute", "Field",
+            # names of which another class name is a suffix (IntegerType / UnsignedIntegerType, ArrayType / FixedLengthArrayType, Field / PaddingField)
+            "UnsignedIntegerType", "SignedIntegerType", "VariableLengthArrayType", "FixedLengthArrayType", "PaddingField", "ArithmeticType",
+            "FloatType", "BooleanType", "VoidType", "Constant", "UTF8Type", "ByteType", "Namespace"]
 
 
 def write_set(d, names, tag, order=None):
